@@ -77,6 +77,9 @@ pub fn xpt(args: &[&str]) -> String {
     if args.len() == 2 && args[0] == "rawaddr" {
         return rawaddr(args[1]);
     }
+    if args.len() == 2 && args[0] == "late" {
+        return late(args[1]);
+    }
     if args.len() != 6 {
         return "BADARG".into();
     }
@@ -412,5 +415,52 @@ fn rawaddr(mode: &str) -> String {
         Ok(Some((d, a, r))) => format!("RAWADDR data_ok={} addr_ok={} reply_ok={}", d as u8, a as u8, r as u8),
         Ok(None) => "RAWADDR SOCKERR".into(),
         Err(_) => "RAWADDR PANIC".into(),
+    }
+}
+
+
+/// `XPT late <nb|nbs>`: a NONBLOCKING unix sender bursts 64 datagrams at a receiver that is not receiving yet (its kernel queue
+/// fills up after a handful); every send answers Ok or Err. Then the receiver drains. Exactly the datagrams whose send answered
+/// Ok must arrive, once each and in order - a send that could not queue its datagram has to say so.
+fn late(mode: &str) -> String {
+    let tag = format!("vp{}-{}", std::process::id(), UNIQ.fetch_add(1, Ordering::SeqCst));
+    let rname = format!("{}-r", tag);
+    let res = std::panic::catch_unwind(|| {
+        let r = portus::ipc::unix::Socket::<Nonblocking>::new(&rname).ok()?;
+        let sname = format!("{}-s", tag);
+        let s = if mode == "nbs" {
+            portus::ipc::unix::Socket::<Nonblocking>::new_with_skbuf(&sname, Some(212_992), Some(212_992)).ok()?
+        } else {
+            portus::ipc::unix::Socket::<Nonblocking>::new(&sname).ok()?
+        };
+        let to = PathBuf::from(format!("/tmp/ccp/{}", rname));
+        let mut acked = vec![];
+        for q in 0u32..64 {
+            let mut m = vec![0u8; 16];
+            m[..4].copy_from_slice(&q.to_le_bytes());
+            m[4..].iter_mut().enumerate().for_each(|(i, b)| *b = (q as usize * 7 + i) as u8);
+            if s.send(&m, &to).is_ok() {
+                acked.push(m);
+            }
+        }
+        let mut got = vec![];
+        let mut buf = [0u8; 64];
+        let t = Instant::now();
+        while t.elapsed() < Duration::from_millis(300) && got.len() < 70 {
+            match r.recv(&mut buf) {
+                Ok((n, _)) => got.push(buf[..n].to_vec()),
+                Err(_) if got.len() >= acked.len() => break,
+                Err(_) => std::thread::yield_now(),
+            }
+        }
+        let _ = std::fs::remove_file(format!("/tmp/ccp/{}", sname));
+        let _ = std::fs::remove_file(format!("/tmp/ccp/{}", rname));
+        Some((acked.len(), got.len(), acked == got))
+    });
+    match res {
+        Ok(Some((_a, _g, true))) => "LATE match=1".into(),
+        Ok(Some((a, g, false))) => format!("LATE match=0 acked={} received={}", a, g),
+        Ok(None) => "SOCKERR".into(),
+        Err(_) => "LATE PANIC".into(),
     }
 }
